@@ -195,8 +195,14 @@ def build_inputs(rng, root):
     os.makedirs(os.path.dirname(p))
     diskimg.write_image(diskimg.image_of(pf), p)
     # the second plotfile's box-to-file layout: another one (combine pairs boxes one by one) or the same (it streams whole files)
+    # (the generator is used as before - the choices that follow keep their meaning for the corpus seeds -; for 'same' the
+    # sibling then takes over the first plotfile's layout)
     rel = random.Random(repr(rng.getstate()[1][:8])).choice(['different', 'same', 'same'])
-    sib = c06.second_plotfile(rng, pf, rel)
+    sib = c06.second_plotfile(rng, pf, 'different')
+    if rel == 'same':
+        import copy
+        for lva, lvb in zip(pf.levels, sib.levels):
+            lvb.files = copy.deepcopy(lva.files)
     sib.fields = ['sib_' + f for f in sib.fields]
     p2 = os.path.join(root, 'run', 'plt2_00010')
     diskimg.write_image(diskimg.image_of(sib), p2)
@@ -204,8 +210,8 @@ def build_inputs(rng, root):
     # the 'chk' prefix is looked for in the last component only: ancestors holding it must not matter
     chkdir = os.path.join(root, rng.choice(['run', 'chk_archive', 'old.chk']), rng.choice(['chk00005', 'chk00005', 'restart7', 'restart7']))
     rn = random.Random(repr(rng.getstate()[1][:8]) + 'chkname')
-    if rn.random() < 0.4:
-        # checkpoint names that hold 'chk' elsewhere than at their start
+    if os.path.basename(chkdir) == 'chk00005' and rn.random() < 0.6:
+        # checkpoint names that hold 'chk' elsewhere than at their start (names without 'chk' stay as they are)
         chkdir = os.path.join(os.path.dirname(chkdir), rn.choice(['flameA_chk00023', 'old.chk00024', 'case2chk7', 'chk_chk00009']))
     genchk.write_checkpoint(chk, chkdir)
     rpath = os.path.join(root, 'recipe.py')
